@@ -4,6 +4,7 @@ import numpy as np
 import z3
 from . import harness as H, terms as tm, modes, core
 from .core import Ob
+from .irsym import summaries
 
 
 class UnitSpec:
@@ -56,6 +57,9 @@ def chunk(ws, n):
     return [ws[i:i + k] for i in range(0, len(ws), k)] if ws else []
 
 
+from fractions import Fraction as _F
+GRID = [_F(0), '-0', _F(1), _F(-1), _F(2), _F(3), _F(1, 2), _F(-5, 2), _F(7), _F(29, 4), _F(1, 8), _F(-11)]
+GRID_INEXACT = [_F(1, 3), _F(-1, 10), _F(355, 113), _F(10, 7)]
 SPECIALS = [0.0, -0.0, 1.0, -1.0, 0.5, 2.0, 3.0, 1e-3, 1e3, 0.1, 1e10, -1e-10, 7.25, -2.5, 1.0 / 3.0]
 
 
@@ -70,7 +74,7 @@ class Ctx:
         self.rng = np.random.default_rng(core.seed() + int(hashlib.md5(spec.name.encode()).hexdigest()[:8], 16))
         self.timeout = int(os.environ.get('PHQV_TIMEOUT_MS', '10000' if core.tier() == 'quick' else '120000'))
         self.nvalid = 3 if core.tier() == 'quick' else 8
-        self.summaries = None
+        self.summaries = summaries.base()
 
     def result(self, name):
         """symbolic execution result of wrapper `name` (cached); None if it did not compile"""
@@ -111,15 +115,24 @@ class Ctx:
             sets.append(xs)
         return sets
 
+    def random_iinputs(self, w, j):
+        if not w.n_iin:
+            return []
+        if j == 0:
+            return [((i * 5) % 7) - 3 for i in range(w.n_iin)]
+        return [int(v) for v in self.rng.integers(-128, 128, size=w.n_iin)]
+
     def validate(self, w, r):
         """encoding validation: NUM evaluation of the executed terms vs the natively compiled wrapper"""
-        for xs in self.random_inputs(w, self.nvalid):
+        for j, xs in enumerate(self.random_inputs(w, self.nvalid)):
+            ks = self.random_iinputs(w, j)
             try:
-                o, io = self.unit.call_native(w, xs)
+                o, io = self.unit.call_native(w, xs, ks)
             except Exception as e:
                 self.out['notes'].append('native call failed %s: %s' % (w.name, e))
                 return
             env = {'x%d' % i: x for i, x in enumerate(xs)}
+            env.update({'k%d' % i: k for i, k in enumerate(ks)})
             ev = modes.Num(env)
             ok = True
             try:
@@ -181,23 +194,51 @@ class Ctx:
             cons = asm + [z3.BoolVal(False)]
         else:
             cons = asm + [z3.Or(*diffs)]
-        v, model, secs, smt = core.solve(cons, self.timeout, want_smt=(len(self.out['obs']) % 50 == 1 or not o.syntactic))
-        o.secs = secs
+        return self.decide(o, cons, w, replay, grid=bool(diffs))
+
+    def decide(self, o, cons, w, replay=None, grid=True, want_smt=None):
+        """pose the negated obligation `cons` (z3 constraints over x<i>/k<i>); unsat = holds.  A sat model is
+        replayed natively through `replay(xs, ks)` -> (reproduces, text)."""
+        v = None
+        secs0 = 0.0
+        smt = None
+        model = None
+        if grid and w.n_in:
+            # bounded first pass: inputs restricted to a small grid of values (a sat answer under the
+            # restriction is a sat answer of the full query; unsat/unknown falls through to the full query)
+            S = modes.FSORT[w.in_ty]
+            g = [modes.fp_const(w.in_ty, p) for p in GRID] + [modes.fp_const(w.in_ty, core.rnd_frac(q, w.in_ty)) for q in GRID_INEXACT]
+            restrict = [z3.Or(*[modes.smt_eq(z3.FP('x%d' % i, S), c) for c in g]) for i in range(w.n_in)]
+            v, model, secs0, _ = core.solve(cons + restrict, min(self.timeout, 20000), want_smt=False)
+            if v != 'sat':
+                v = None
+        if v is None:
+            ws = want_smt if want_smt is not None else (len(self.out['obs']) % 40 == 1 or not o.syntactic)
+            v, model, secs, smt = core.solve(cons, self.timeout, want_smt=ws)
+        else:
+            secs = 0.0
+        o.secs = secs + secs0
         o.smt = smt
+        if o.hash is None:
+            o.hash = hashlib.md5((o.oid + str(len(cons))).encode()).hexdigest()
         if v == 'unsat':
             o.verdict = 'discharged'
         elif v == 'sat':
             xs = core.model_inputs(model, ['x%d' % i for i in range(w.n_in)], w.in_ty)
-            o.model = [core.hexf(x) for x in xs]
+            ks = core.model_ints(model, ['k%d' % i for i in range(w.n_iin)])
+            o.model = [core.hexf(x) for x in xs] + ks
             if replay is None:
                 o.verdict = 'inconclusive'
                 o.reason = 'candidate counterexample, no replay available'
             else:
-                rep, text = replay(xs)
+                try:
+                    rep, text = replay(xs, ks) if w.n_iin else replay(xs)
+                except Exception as e:
+                    rep, text = False, 'replay failed: %s' % e
                 if rep:
                     o.verdict = 'violated'
                     o.reason = text
-                    o.replay = self.save_case(o, xs, getattr(replay, 'case', {}))
+                    o.replay = self.save_case(o, xs, getattr(replay, 'case', {}), ks)
                 else:
                     o.verdict = 'inconclusive'
                     o.reason = 'solver counterexample did not reproduce natively: ' + text
@@ -206,7 +247,7 @@ class Ctx:
             o.reason = 'solver: ' + v
         return o
 
-    def save_case(self, o, xs, case):
+    def save_case(self, o, xs, case, ks=()):
         prop = self.spec.payload.get('prop', 'CXX') if isinstance(self.spec.payload, dict) else 'CXX'
         names = [case.get('impl'), case.get('ref')]
         ws = [self.byname[n] for n in names if n]
@@ -214,15 +255,15 @@ class Ctx:
         c.update({'property': prop, 'obligation': o.oid, 'statement': o.desc, 'includes': list(self.spec.includes),
                   'extra_src': self.spec.extra_src,
                   'wrappers': [{'name': w.name, 'in_ty': w.in_ty, 'n_in': w.n_in, 'out_ty': w.out_ty, 'n_out': w.n_out,
-                                'n_iout': w.n_iout, 'body': w.body} for w in ws],
-                  'inputs': [core.hexf(x) for x in xs], 'observed': o.reason})
+                                'n_iout': w.n_iout, 'n_iin': w.n_iin, 'body': w.body} for w in ws],
+                  'inputs': [core.hexf(x) for x in xs], 'iinputs': list(ks), 'observed': o.reason})
         return core.write_replay(prop, o.oid, c)
 
     def native_pair_replay(self, w_impl, w_ref):
         """replay closure: run both wrappers natively, compare all outputs bit for bit"""
-        def rp(xs):
-            o1, i1 = self.unit.call_native(w_impl, xs)
-            o2, i2 = self.unit.call_native(w_ref, xs)
+        def rp(xs, ks=()):
+            o1, i1 = self.unit.call_native(w_impl, xs, ks)
+            o2, i2 = self.unit.call_native(w_ref, xs, ks)
             bad = [i for i in range(len(o1)) if not same_float(o1[i], o2[i])]
             badi = [i for i in range(len(i1)) if i1[i] != i2[i]]
             return (bool(bad or badi),
@@ -233,9 +274,10 @@ class Ctx:
 
     def native_term_replay(self, w_impl, ref_terms, ref_iterms=()):
         """replay closure: run the wrapper natively and compare with NUM evaluation of specification terms"""
-        def rp(xs):
-            o1, i1 = self.unit.call_native(w_impl, xs)
+        def rp(xs, ks=()):
+            o1, i1 = self.unit.call_native(w_impl, xs, ks)
             env = {'x%d' % i: x for i, x in enumerate(xs)}
+            env.update({'k%d' % i: k for i, k in enumerate(ks)})
             ev = modes.Num(env)
             exp = [H.NPT[w_impl.out_ty](ev.ev(t)) for t in ref_terms]
             bad = [i for i in range(len(exp)) if not same_float(o1[i], exp[i])]
@@ -248,6 +290,17 @@ class Ctx:
                                                    [core.hexf(x) for x in exp] + expi))
         rp.case = {'kind': 'values', 'impl': w_impl.name}
         return rp
+
+
+def guarded(ctx, ident, fn):
+    """run one obligation group; an internal error makes it inconclusive instead of killing the unit"""
+    try:
+        fn()
+    except Exception as e:
+        o = ctx.ob(str(ident) + ' [internal]', 'internal-error', '-', 'obligation group %s' % ident)
+        o.verdict = 'inconclusive'
+        o.reason = 'internal error: %s: %s' % (type(e).__name__, str(e)[:200])
+        ctx.out['notes'].append(traceback.format_exc()[-1200:])
 
 
 def same_float(a, b):
